@@ -137,7 +137,7 @@ func c14Run(sc *C14Scenario) *c14Outcome {
 func c14GenScenario(r *rng) *C14Scenario {
 	sc := &C14Scenario{}
 	steps := 6 + r.intn(50)
-	sc.Prog = genProgram(r, genParams{Steps: steps, Metadata: false, BlockAddr: r.chance(1, 3)})
+	sc.Prog = genProgram(r, genParams{Steps: steps, Metadata: r.chance(1, 3), BlockAddr: r.chance(1, 3)})
 	nobs := 1 + r.intn(12)
 	if r.chance(1, 8) {
 		nobs = 20 + r.intn(20)
